@@ -897,9 +897,9 @@ HCIstaccess(accrec_t *access_rec, int16 acc_mode)
         HGOTO_ERROR(DFE_COMPINFO, FAIL);
     info->attached = 1;
     if (HCIinit_model(acc_mode, &(info->minfo), info->minfo.model_type, &m_info) == FAIL)
-        HRETURN_ERROR(DFE_MINIT, FAIL);
+        HGOTO_ERROR(DFE_MINIT, FAIL);
     if (HCIinit_coder(acc_mode, &(info->cinfo), info->cinfo.coder_type, &c_info) == FAIL)
-        HRETURN_ERROR(DFE_CINIT, FAIL);
+        HGOTO_ERROR(DFE_CINIT, FAIL);
 
     file_rec->attach++;
 
